@@ -26,8 +26,8 @@ theorem c03_tables_wf : wfTableB jsonTable = true := by decide
     depth, any width, any falsy leaf — strict reading of what the writer produced returns exactly `v`. -/
 theorem c03_roundtrip (k : Kind) (v : Val) (h : ConfV jsonTable k v) :
     dec jsonTable false k (enc jsonTable false v) = .ok v := by
-  have := rt_val jsonTable false (wf_of_wfTableB _ c03_tables_wf) k v h
-  rwa [strip_false] at this
+  have := rt_val jsonTable false false (wf_of_wfTableB _ c03_tables_wf) k v h
+  rwa [Bool.or_false, strip_false] at this
 
 /-- The enum ↔ string tables are one-to-one in both directions (so the inverse tables the reader builds by
     comprehension are total inverses and identifying members with their wire strings loses nothing). -/
@@ -90,8 +90,8 @@ theorem c03_store_roundtrip (objs : List Val) (h : ConfL jsonTable (.poly idKind
   have hrt : ∀ (c : String), decList jsonTable false (.poly idKinds) (encList jsonTable false (ofKind c objs))
       = .ok (ofKind c objs) := by
     intro c
-    have := rt_list jsonTable false hWF (.poly idKinds) _ (hfil (fun o => decide (clsOf o = c)) objs h)
-    rwa [stripList_false] at this
+    have := rt_list jsonTable false false hWF (.poly idKinds) _ (hfil (fun o => decide (clsOf o = c)) objs h)
+    rwa [Bool.or_false, stripList_false] at this
   have e1 : decSection jsonTable (encStore jsonTable objs) "assetAdministrationShells"
       = .ok (ofKind "AssetAdministrationShell" objs) := by
     have := hrt "AssetAdministrationShell"
